@@ -78,11 +78,20 @@ def build(value, mod):
     return value
 
 
+def _allocated(x):
+    """Every object a clause can name at run time exists."""
+    return True
+
+
+def _forall_obj(cls, fn):
+    raise NotImplementedError("a heap-wide quantifier cannot be evaluated at run time (the clause is skipped)")
+
+
 def spec_env(mod):
     env = dict(vars(mod))
     for name, sf in REG.specfuns.items():
         env[name] = sf.fn
-    env.update(implies=implies, forall=forall, exists=exists, typeis=_typeis, fresh=_fresh)
+    env.update(implies=implies, forall=forall, exists=exists, typeis=_typeis, fresh=_fresh, allocated=_allocated, forall_obj=_forall_obj)
     return env
 
 
